@@ -222,6 +222,10 @@ def tasks(tier):
   # the power iteration starts from a vector that is zero on the padding rows and returns its Rayleigh quotient (C01)
   from contracts import c01
   ts.append(Task("power_iteration ignores the padding of a statistic", c01.mk_pi_result(True)))
+  # the preconditioned blocks are merged back into their OWN boxes (two blocked axes with different block counts incl.)
+  from contracts import c06
+  for blocks in ((2, 3), (3, 2), (2, 1, 3)):
+    ts.append(Task(f"blocks are merged back into their own boxes[blocks={blocks}]", c06.mk_partition_order(len(blocks), blocks)))
   from contracts import c13
   for n, d, gr in ((3, 1, (3,)), (4, 2, (4,)), (3, 2, (2, 1))):
     ts.append(Task(f"distributed shampoo per-block acceptance[N={n},D={d},statistics per parameter {gr}]", c13.mk_p3(n, d, gr)))
